@@ -32,12 +32,19 @@ def one(i):
         newerr = [e for e in errs if e not in BASE[p][1]]
         if new or newerr:
             fired[p] = [k[0] + " " + k[1] for k in new] + ["ERR " + e[:120] for e in newerr]
+            if VERBOSE:
+                for r in res:
+                    for f in r.findings:
+                        if f.key in new:
+                            print("   ", m.id, f.rule, f.loc, f.msg)
     return (m.id, "fired" if fired else "silent", fired)
 
+VERBOSE = len(sys.argv) > 1
 BASE = base_keys()
 if __name__ == "__main__":
+    sel = [i for i, m in enumerate(VARIANTS) if not VERBOSE or m.id in sys.argv[1:]]
     with ProcessPoolExecutor(16) as ex:
-        out = list(ex.map(one, range(len(VARIANTS))))
+        out = list(ex.map(one, sel))
     n_f = 0
     for mid, st, info in out:
         if st != "silent":
